@@ -1,6 +1,7 @@
 // C12 - owned URIs are independent of their source; borrowed text and read-only arguments are never written.
 #include "../core.h"
 #include "fixture.h"
+#include "../mm.h"
 #include "corpus.h"
 #include "norm_sets.h"
 
@@ -77,10 +78,38 @@ template <class C> struct Runner {
         if (A::RemoveBaseUri(&d, a.u, b.u, URI_TRUE) == URI_SUCCESS) A::FreeUriMembers(&d); else A::FreeUriMembers(&d);
         GUARD_LEAVE();
     }
+    // the same calls with OWNER arguments made through a ledger manager: a callee that treats an owner argument as its own (releases or
+    // rewrites what it holds) shows as a changed key, as a free of a block that is still in use, or as a double free at the end
+    Ledger led;
+    void owner_args(const Str &text) {
+        static const char *BASES[] = { BASE, "s://1.2.3.4/a/./b/../c/d?q", "s:/x/../y/./z", "s:a/./b" };
+        for (const char *bt : BASES) {
+            led.reset(); std::basic_string<C> wa = widen<C>(text), wb = widen<C>(bt); Uri a, b, d; const C *ep; int sig; lc->ro_calls++; Str e = enc(text, 8, 0), what;
+            if ((sig = GUARD_ENTER()) != 0) { ctx->violation("", e, fmt("%s in a call with owner arguments (base %s)", signame(sig), bt)); led.reset(); continue; }
+            bool ok = A::ParseSingleUriExMm(&a, wa.data(), wa.data() + wa.size(), &ep, &led.mm) == URI_SUCCESS && A::ParseSingleUriExMm(&b, wb.data(), wb.data() + wb.size(), &ep, &led.mm) == URI_SUCCESS
+                      && A::MakeOwnerMm(&a, &led.mm) == URI_SUCCESS && A::MakeOwnerMm(&b, &led.mm) == URI_SUCCESS;
+            if (ok) {
+                Str ka = observe<C>(a).key(), kb = observe<C>(b).key();
+                auto same = [&](const char *call) { if (what.empty() && (observe<C>(a).key() != ka || observe<C>(b).key() != kb || !led.errors.empty())) what = Str(call) + " modified an owner argument or released memory it holds" + (led.errors.empty() ? Str() : " (" + led.errors[0] + ")"); };
+                int need = 0; A::ToStringCharsRequired(&a, &need); std::vector<C> buf((size_t)need + 2); int w = 0; A::ToString(buf.data(), &a, need + 1, &w); same("uriToString");
+                unsigned m2 = 0; A::NormalizeSyntaxMaskRequiredEx(&a, &m2); same("uriNormalizeSyntaxMaskRequiredEx"); A::EqualsUri(&a, &b); A::EqualsUri(&b, &a); same("uriEqualsUri");
+                A::AddBaseUriExMm(&d, &a, &b, URI_RESOLVE_STRICTLY, &led.mm); A::FreeUriMembersMm(&d, &led.mm); same("uriAddBaseUri");
+                A::AddBaseUriExMm(&d, &b, &a, URI_RESOLVE_IDENTICAL_SCHEME_COMPAT, &led.mm); A::FreeUriMembersMm(&d, &led.mm); same("uriAddBaseUri (argument as base)");
+                A::RemoveBaseUriMm(&d, &a, &b, URI_FALSE, &led.mm); A::FreeUriMembersMm(&d, &led.mm); same("uriRemoveBaseUri");
+                A::RemoveBaseUriMm(&d, &b, &a, URI_FALSE, &led.mm); A::FreeUriMembersMm(&d, &led.mm); same("uriRemoveBaseUri (argument as base)");
+                A::RemoveBaseUriMm(&d, &a, &b, URI_TRUE, &led.mm); A::FreeUriMembersMm(&d, &led.mm); same("uriRemoveBaseUri (domain root)");
+            }
+            A::FreeUriMembersMm(&a, &led.mm); A::FreeUriMembersMm(&b, &led.mm);
+            if (what.empty() && ok && (!led.errors.empty() || !led.live.empty())) what = led.errors.empty() ? fmt("%zu blocks outstanding after freeing the owner arguments", led.live.size()) : "freeing the owner arguments: " + led.errors[0];
+            GUARD_LEAVE(); led.reset();
+            if (!what.empty()) ctx->violation("", e, what + " [base " + bt + "]");
+        }
+    }
     void run_text(const Str &t, int only_hist = -1, int only_op = -1) {
         SanWatch sw;
         for (int hist = 0; hist < 4; hist++) for (int op = 0; op < 64; op++) { if ((only_hist >= 0 && hist != only_hist) || (only_op >= 0 && op != only_op)) continue; if (hist > 0 && !(op == 0 || op == 63 || op == 8 || op == 4 || op == 1 || op == 2 || op == 48)) continue; one(t, hist, op); }
         if (only_hist < 0 || only_hist == 9) ro_calls(t);
+        if (only_hist < 0 || only_hist == 8) owner_args(t);
         if (sw.tripped()) ctx->violation("", enc(t, 0, 0), "AddressSanitizer reported an invalid access (use of the released source?)");
     }
 };
